@@ -36,7 +36,7 @@ OBLIGATIONS = [
     "C16_csv_roundtrip_partial", "C16_csv_na_id_refuted",
     "C16_empty_refuted", "C16_save_load_extension",
     # source level (T1): the same statements over the tables regenerated from individual_parameters.py (coq/gen/GenC16.v)
-    "C16_src_add_is_model", "C16_src_add_rejects_partial", "C16_src_bool_rejected", "C16_src_add_accepts",
+    "C16_src_add_is_model", "C16_src_add_all_is_model", "C16_src_add_rejects_partial", "C16_src_bool_rejected", "C16_src_add_accepts",
     "C16_src_conversions_are_model", "C16_src_torch_roundtrip", "C16_src_table_roundtrip_partial",
     "C16_src_scalar_refuted", "C16_src_underscore_refuted", "C16_src_json_roundtrip", "C16_src_load_fills",
 ]
